@@ -28,6 +28,7 @@ class TypeRef:
     __slots__ = ('tid',)
     def __init__(self, tid): self.tid = tid
     def __repr__(self): return 'Type#%s' % self.tid
+    def hkey(self): return ('T', self.tid)
 
 
 class ErrV:
